@@ -43,7 +43,7 @@ def run(name, repo="/repo", work=None, tier="quick", prop=None, seed=0):
     lock = os.path.join(repo, "Cargo.lock")
     if os.path.exists(lock):
         open(os.path.join(crate, "Cargo.lock"), "w").write(open(lock).read())
-    target = os.path.join(ROOT, "build", "bounded_target_" + str(abs(hash(os.path.abspath(repo))) % 100000))
+    target = os.path.join(ROOT, "build", "bounded_target_" + __import__("hashlib").sha1(os.path.abspath(repo).encode()).hexdigest()[:8])
     env = dict(os.environ, CARGO_NET_OFFLINE="true", CARGO_TARGET_DIR=target)
     b = subprocess.run(["cargo", "build", "--release", "--offline", "-q"], cwd=crate, env=env, capture_output=True, text=True)
     if b.returncode != 0:
